@@ -2258,3 +2258,41 @@ Proof.
   - unfold brd. rewrite F by (change (Z.of_nat 8) with 8; lia). fold (brd dat 16 8). rewrite blen_bwrite. lia.
   - split; [exact W|]. intros s Hs. rewrite !v1_load_rec_w by assumption. now rewrite R.
 Qed.
+
+(* ================================================================================================ *)
+(* Part 8: the readers on ARBITRARY file contents (no invariant assumed).  An index entry is interpreted by     *)
+(* size and offset only: whatever bytes the files hold, a reader answers `missing` or a slice that lies inside    *)
+(* the file; the only exception is the documented struct.error of v1 when the 4-byte size field is cut off by     *)
+(* the end of the data file.                                                                                     *)
+
+Theorem v2_reader_total f s :
+  B2 <= blen f -> slot_ok s ->
+  v2_load f s = RMissing \/
+  exists off n, v2_load f s = RData (bread f off n) /\ 0 <= off /\ (n = O \/ off + Z.of_nat n <= blen f).
+Proof.
+  intros Hl Hs. destruct (v2_idx_range s Hs) as [I1 [I2 _]].
+  unfold v2_load, v2_tile_offset_size. rewrite v2_entry_bytes_spec. rewrite brdnum_some by (change (Z.of_nat 8) with 8; lia).
+  rewrite v2_entry_size_spec, v2_entry_offset_spec. set (val := brd f (v2_idx s) 8).
+  destruct (val / two40 =? 0) eqn:E; [left; reflexivity|]. rewrite E. right.
+  exists (val - val / two40 * two40), (Z.to_nat (Z.min (val / two40) (blen f - (val - val / two40 * two40)))).
+  split; [reflexivity|]. unfold two40. split; [lia|].
+  destruct (Z_le_gt_dec (Z.min (val / 1099511627776) (blen f - (val - val / 1099511627776 * 1099511627776))) 0); [left|right]; lia.
+Qed.
+
+Theorem v1_reader_total idx dat s :
+  X1 <= blen idx -> slot_ok s ->
+  let off := brd idx (v1_ioff s) 5 in
+  v1_load (idx, dat) s = RMissing \/
+  (v1_load (idx, dat) s = RError /\ off <> 0 /\ blen dat < off + 4) \/
+  exists n, v1_load (idx, dat) s = RData (bread dat (off + 4) n) /\ n <> O /\ off + 4 + Z.of_nat n <= blen dat.
+Proof.
+  intros Hl Hs. destruct (v1_ioff_range s Hs) as [I1 I2]. assert (HX1 : X1 = 81952) by reflexivity. cbv zeta.
+  unfold v1_load, v1_tile_offset, v1_entry_bytes. rewrite brdnum_some by (change (Z.of_nat 5) with 5; lia).
+  set (off := brd idx (v1_ioff s) 5). destruct (off =? 0) eqn:E0; [left; reflexivity|].
+  unfold brdnum. destruct (off + Z.of_nat 4 <=? blen dat) eqn:E4.
+  - set (size := unle (bread dat off 4)). destruct (size <=? 0) eqn:Es; [left; reflexivity|].
+    unfold breadz. set (n := Z.to_nat (Z.min size (blen dat - (off + 4)))).
+    destruct (bread dat (off + 4) n) eqn:Eb; [left; reflexivity|]. right. right. exists n. rewrite Eb.
+    split; [reflexivity|]. assert (n <> O) by (intros ->; discriminate). split; [assumption|]. unfold n in *. lia.
+  - right. left. split; [reflexivity|]. change (Z.of_nat 4) with 4 in E4. lia.
+Qed.
